@@ -15,7 +15,7 @@ DEBUG_PROFILE = {"c05_machine_semantics_replay"}
 
 BOUNDS = {
     "c02_codec_replay": "every byte string of <= 3 bytes and 1..40 0xff bytes + 2-byte tails as program (commit-time, expression and redeem-time decoders, Core jets; witnesses of <= 1 byte); "
-                        "every combinator tree of depth <= 2 over iden/unit/witness/fail/word/jet leaves encoded and decoded again; six redemption programs with witnesses of types 1, 1x1, 2^8x2^8, (A+B)xC, 2^64x2^64 "
+                        "every combinator tree of depth <= 2 over iden/unit/witness/fail/word/jet leaves encoded and decoded again; the same with a hidden branch whose root equals the root of a real node of the same expression, and eight typed commitment-time programs of that kind (decoded program must have the same root, shape and bytes); six redemption programs with witnesses of types 1, 1x1, 2^8x2^8, (A+B)xC, 2^64x2^64 "
                         "round-tripped with every decoded witness checked against its node's target type",
     "c14_jet_codes_replay": "all 1267 jets, three continuations each; all 24-bit inputs per family",
     "c16_policy_roots_replay": "4105 policies: 10 leaves (trivial, unsatisfiable, after/older at and just past the environment's lock times, sha256 and key with and without preimage/signature), all and/or/threshold(1,2) nodes over pairs, single-child thresholds, a sample of 3-child thresholds with k = 0..3, and a sample of depth-2 combinations; one environment",
